@@ -74,6 +74,7 @@ const (
 	sLoop     // neither
 	sPostOnly // For(nil, post, body)
 	sCombine
+	sIte // state-dependent branch
 )
 
 var leafKinds = []shapeKind{sNormal, sBrk, sCont, sRet, sRetV}
@@ -104,6 +105,7 @@ func allShapes(n int, memo map[int][]*shape) []*shape {
 			for _, a := range allShapes(i, memo) {
 				for _, b := range allShapes(n-1-i, memo) {
 					out = append(out, &shape{k: sCombine, a: a, b: b})
+					out = append(out, &shape{k: sIte, a: a, b: b})
 				}
 			}
 		}
@@ -134,6 +136,10 @@ func (d *deco) decorate(s *shape) *CTerm {
 	case sCombine:
 		a := d.decorate(s.a)
 		return &CTerm{K: KCombine, A: a, B: d.decorate(s.b)}
+	case sIte:
+		c := d.cond()
+		a := d.decorate(s.a)
+		return &CTerm{K: KIte, C: c, A: a, B: d.decorate(s.b)}
 	case sFor:
 		c := d.cond()
 		p := d.script(false)
@@ -177,7 +183,11 @@ func randomShape(r *rand.Rand, size int) *shape {
 	}
 	if size >= 3 && r.Intn(3) == 0 {
 		i := 1 + r.Intn(size-2)
-		return &shape{k: sCombine, a: randomShape(r, i), b: randomShape(r, size-1-i)}
+		k := sCombine
+		if r.Intn(2) == 0 {
+			k = sIte
+		}
+		return &shape{k: k, a: randomShape(r, i), b: randomShape(r, size-1-i)}
 	}
 	k := unaryKinds[r.Intn(len(unaryKinds))]
 	if r.Intn(3) == 0 {
